@@ -130,6 +130,9 @@ func Parse(src string, ic Interceptors) (*Pattern, error) {
 				t.fn = ic[rule]
 			default:
 				t.Kind = Regexp
+				if _, err := regexp.Compile(rule); err != nil { // the rule must be an expression on its own
+					return nil, fmt.Errorf("bad-regexp")
+				}
 				re, err := regexp.Compile("^(?:" + rule + ")$")
 				if err != nil {
 					return nil, fmt.Errorf("bad-regexp")
